@@ -403,7 +403,8 @@ class ClassObject(Object, Callable):
     def _cls_attrs(self):
         # type: () -> Names
         names = self.scope.flow.names
-        return {n: names[n] for n in self.scope.locals}  # type: ignore[misc]  # TODO: could be MultiName
+        # locals also holds names the body only deletes
+        return {n: names[n] for n in self.scope.locals if n in names}  # type: ignore[misc]  # TODO: could be MultiName
 
     @cached_property
     def bases(self):
